@@ -583,9 +583,25 @@ func ruleItemKinds(c *Ctx, rule string) {
 	}
 	ob := r.Ob(rule, "generateReplaceVariable: transform name -> ReplaceProcess, anything else -> ReplaceVariable", c.pos(fn.Pos()))
 	mk := func() *PEval { return &PEval{Interpret: c.repoInterp} }
+	// arguments by parameter type, so that a changed parameter list (a dropped offset) does not matter
 	mkArgs := func() []PVal {
-		v := pwith(pzero(varT), "Name", PSym{"NAME"})
-		return []PVal{PPtr{&PObj{v}, nil}, PSym{"offset"}, PSym{"state"}}
+		var args []PVal
+		for _, p := range fn.Params {
+			switch {
+			case types.Identical(deref(p.Type()), varT):
+				v := pwith(pzero(varT), "Name", PSym{"NAME"})
+				if _, isPtr := p.Type().(*types.Pointer); isPtr {
+					args = append(args, PPtr{&PObj{v}, nil})
+				} else {
+					args = append(args, v)
+				}
+			case types.Identical(p.Type(), types.Typ[types.Int]):
+				args = append(args, PSym{"offset"})
+			default:
+				args = append(args, PSym{"state"})
+			}
+		}
+		return args
 	}
 	paths, perr := RunPaths(mk, fn, mkArgs, 8)
 	if perr != "" {
@@ -608,6 +624,8 @@ func ruleItemKinds(c *Ctx, rule string) {
 			res := "?"
 			if len(p.Res.Results) == 2 {
 				res = pstring(p.Res.Results[0]) + " err=" + pstring(p.Res.Results[1])
+			} else if len(p.Res.Results) == 1 {
+				res = pstring(p.Res.Results[0])
 			}
 			descs = append(descs, "["+strings.Join(conds, " && ")+"] -> "+res)
 		}
@@ -869,5 +887,284 @@ func ruleReplacerOwnsItsTables(c *Ctx, rule string) {
 		ob.OKnt(fmt.Sprintf("%d store(s) into reference fields of the per-match state inside the loop over the matches; none installs a table that outlives the match and is written during it", nstores))
 	} else {
 		ob.Bad(strings.Join(bad, "; ") + ": what is computed for one match can change the replacement of a later match")
+	}
+}
+
+// ruleBuiltinsWin implements C05.R8 / C12.R8: the names the engine provides to process code (match, matchLength, matchNumber, typed
+// as the checker assumes) are written into the environment after the captured variables are copied in, never before: a capture that
+// happens to carry such a name must not replace the typed built-in. Structurally: no update of the environment with a computed key
+// may execute after an update with a constant key.
+func ruleBuiltinsWin(c *Ctx, rule string) {
+	r := c.R
+	pvT := c.NamedType("engine", "ProcessValue")
+	if pvT == nil {
+		r.Ob(rule, "anchor engine.ProcessValue", "").Und("not found")
+		return
+	}
+	isEnv := func(t types.Type) bool {
+		m, ok := t.Underlying().(*types.Map)
+		return ok && types.Identical(m.Elem(), pvT)
+	}
+	// helpers that return an environment they filled with constant keys
+	constFillers := map[*ssa.Function]bool{}
+	for _, fn := range c.SrcFuncs("engine") {
+		res := fn.Signature.Results()
+		psT := c.NamedType("engine", "ProcessState")
+		if res.Len() != 1 || !(isEnv(res.At(0).Type()) || (psT != nil && types.Identical(deref(res.At(0).Type()), psT))) {
+			continue
+		}
+		// not the statement executors, which thread a state they are given
+		threads := false
+		for _, p := range fn.Params {
+			if psT != nil && types.Identical(deref(p.Type()), psT) {
+				threads = true
+			}
+		}
+		if threads {
+			continue
+		}
+		instrsOf(fn, func(in ssa.Instruction) {
+			if mu, ok := in.(*ssa.MapUpdate); ok && isEnv(mu.Map.Type()) {
+				if _, isConst := mu.Key.(*ssa.Const); isConst {
+					constFillers[fn] = true
+				}
+			}
+		})
+	}
+	// base of an environment expression: the map value itself, or the struct value/variable whose field it is
+	baseOf := func(m ssa.Value) ssa.Value {
+		switch x := m.(type) {
+		case *ssa.Field:
+			return x.X
+		case *ssa.UnOp:
+			if fa, ok := x.X.(*ssa.FieldAddr); ok {
+				return fa.X
+			}
+		}
+		return m
+	}
+	// what a base was made from: a call, a parameter, or unknown
+	originOf := func(b ssa.Value) ssa.Value {
+		if a, ok := b.(*ssa.Alloc); ok {
+			for _, ref := range *a.Referrers() {
+				if st, ok := ref.(*ssa.Store); ok && st.Addr == ssa.Value(a) {
+					return st.Val
+				}
+			}
+		}
+		return b
+	}
+	n := 0
+	psT0 := c.NamedType("engine", "ProcessState")
+	for _, fn := range c.SrcFuncs("engine") {
+		// statement and expression executors thread the state they are given; what they write are the variables a `set` names
+		threads := false
+		for _, p := range fn.Params {
+			if psT0 != nil && types.Identical(deref(p.Type()), psT0) {
+				threads = true
+			}
+		}
+		if threads {
+			continue
+		}
+		k := 0
+		instrsOf(fn, func(in ssa.Instruction) {
+			d, ok := in.(*ssa.MapUpdate)
+			if !ok || !isEnv(d.Map.Type()) {
+				return
+			}
+			if _, isConst := d.Key.(*ssa.Const); isConst {
+				return
+			}
+			// statement executors write the variables a `set` names into the state they are handed: not a copy of captured variables
+			base := baseOf(d.Map)
+			origin := originOf(base)
+			if _, isParam := origin.(*ssa.Parameter); isParam {
+				return
+			}
+			n++
+			k++
+			ob := r.Ob(rule, fmt.Sprintf("%s: captured variables (#%d) are copied into the environment before the built-ins are set", fnName(fn), k), c.pos(d.Pos()))
+			problem := ""
+			if call, ok := origin.(*ssa.Call); ok && constFillers[call.Call.StaticCallee()] {
+				problem = "the environment comes from " + call.Call.StaticCallee().Name() + ", which has already set the built-in names"
+			}
+			if problem == "" {
+				live := newLiveCFG(fn)
+				instrsOf(fn, func(y ssa.Instruction) {
+					kk, ok := y.(*ssa.MapUpdate)
+					if !ok || baseOf(kk.Map) != base || kk == d {
+						return
+					}
+					if kc, isConst := kk.Key.(*ssa.Const); isConst && live.after(kk, d) {
+						problem = "the built-in " + exprStr(kc) + " is set at " + c.pos(kk.Pos()) + ", before this copy"
+					}
+				})
+			}
+			if problem == "" {
+				ob.OKnt("no constant-key update of the same environment can execute before this copy")
+			} else {
+				ob.Bad(problem + ": a captured variable named like a built-in overwrites it (with a string where the checker promised a number, or with another text than the match)")
+			}
+		})
+	}
+	r.Stats["environment_copies_of_captured_variables"] = n
+	if n == 0 {
+		r.Ob(rule, "no environment is filled with computed keys", "").OK("only constant names are ever written into a process environment")
+	}
+}
+
+// ruleTransformBoundAtCompileTime implements C05.R9: the statements a transform item runs are the ones the generator stored in the
+// instruction when the replace command was compiled. A handler that fetches them from a table by name at run time sees whatever
+// definition of that name came last in the source.
+func ruleTransformBoundAtCompileTime(c *Ctx, rule string) {
+	r := c.R
+	rpT := c.NamedType("bytecode", "ReplaceProcess")
+	exS := c.Fn("engine", "executeStatement")
+	exR := c.Fn("engine", "executeReplace")
+	if rpT == nil || exS == nil || exR == nil {
+		r.Ob(rule, "anchor bytecode.ReplaceProcess / engine.executeStatement / executeReplace", "").Und("not found")
+		return
+	}
+	// resolve where a statement (list) comes from: "instr" (a field of a ReplaceProcess instruction), "lookup <expr>", or "?<expr>"
+	var origin func(v ssa.Value, fn *ssa.Function, depth int) string
+	origin = func(v ssa.Value, fn *ssa.Function, depth int) string {
+		if depth > 6 {
+			return "?" + exprStr(v)
+		}
+		root := traceAddr(v).Root
+		// a local: follow what is stored into it (range variable, copy of the instruction)
+		if a, ok := root.(*ssa.Alloc); ok {
+			res := ""
+			for _, ref := range *a.Referrers() {
+				st, ok := ref.(*ssa.Store)
+				if !ok || st.Addr != ssa.Value(a) {
+					continue
+				}
+				val := st.Val
+				if u, ok := val.(*ssa.UnOp); ok {
+					if ia, ok := u.X.(*ssa.IndexAddr); ok {
+						val = ia.X // element of a slice: the slice
+					}
+				}
+				o := origin(val, fn, depth+1)
+				if res == "" || o != "instr" {
+					res = o
+				}
+			}
+			if res != "" {
+				return res
+			}
+			return "?" + exprStr(v)
+		}
+		isInstrType := func(t types.Type) bool {
+			n, ok := t.(*types.Named)
+			if !ok || n.Obj().Pkg() == nil || n.Obj().Pkg().Name() != "bytecode" {
+				return false
+			}
+			_, isStruct := n.Underlying().(*types.Struct)
+			return isStruct
+		}
+		switch x := root.(type) {
+		case *ssa.TypeAssert:
+			if isInstrType(x.AssertedType) {
+				return "instr"
+			}
+		case *ssa.Extract:
+			if ta, ok := x.Tuple.(*ssa.TypeAssert); ok && isInstrType(ta.AssertedType) {
+				return "instr"
+			}
+			if lk, ok := x.Tuple.(*ssa.Lookup); ok {
+				return "lookup " + exprStr(lk)
+			}
+		case *ssa.Lookup:
+			return "lookup " + exprStr(x)
+		case *ssa.Parameter:
+			if isInstrType(x.Type()) {
+				return "instr"
+			}
+			idx := -1
+			for i, p := range fn.Params {
+				if p == x {
+					idx = i
+				}
+			}
+			res := ""
+			for _, caller := range c.SrcFuncs("engine") {
+				for _, cl := range callsTo(caller, fn) {
+					if idx < 0 || idx >= len(cl.Call.Args) {
+						continue
+					}
+					o := origin(cl.Call.Args[idx], caller, depth+1)
+					if res == "" || o != "instr" {
+						res = o
+					}
+				}
+			}
+			if res != "" {
+				return res
+			}
+		case *ssa.FreeVar:
+			// a variable captured by a closure: what the enclosing function bound to it
+			if parent := fn.Parent(); parent != nil {
+				idx := -1
+				for i, fv := range fn.FreeVars {
+					if fv == x {
+						idx = i
+					}
+				}
+				res := ""
+				instrsOf(parent, func(in ssa.Instruction) {
+					mc, ok := in.(*ssa.MakeClosure)
+					if !ok || mc.Fn != ssa.Value(fn) || idx < 0 || idx >= len(mc.Bindings) {
+						return
+					}
+					o := origin(mc.Bindings[idx], parent, depth+1)
+					if res == "" || o != "instr" {
+						res = o
+					}
+				})
+				if res != "" {
+					return res
+				}
+			}
+		case *ssa.Phi:
+			res := ""
+			for _, e := range x.Edges {
+				o := origin(e, fn, depth+1)
+				if res == "" || o != "instr" {
+					res = o
+				}
+			}
+			return res
+		}
+		return "?" + exprStr(v)
+	}
+	ob := r.Ob(rule, "replace: a transform item runs the statements stored in its instruction", c.pos(exR.Pos()))
+	found := 0
+	var bad, unknown []string
+	for fn := range c.Reachable(exR) {
+		if !c.isRepoFn(fn) || fn.Pkg != exR.Pkg || fn == exS || c.Reachable(exS)[fn] {
+			continue
+		}
+		for _, call := range callsTo(fn, exS) {
+			found++
+			o := origin(call.Call.Args[0], fn, 0)
+			switch {
+			case o == "instr":
+			case strings.HasPrefix(o, "lookup "):
+				bad = append(bad, strings.TrimPrefix(o, "lookup ")+" (used in "+fn.Name()+")")
+			default:
+				unknown = append(unknown, strings.TrimPrefix(o, "?"))
+			}
+		}
+	}
+	switch {
+	case len(bad) > 0:
+		ob.Bad("the statements are fetched by a table lookup, " + strings.Join(uniq(bad), ", ") + ", when the replacer runs: a later `set ... to transform` with the same name changes what an earlier replace command does")
+	case found == 0 || len(unknown) > 0:
+		ob.Und(fmt.Sprintf("%d executeStatement call(s) under executeReplace; origin not followed: %v", found, uniq(unknown)))
+	default:
+		ob.OKnt(fmt.Sprintf("%d executeStatement call(s) under executeReplace, each on an element of the statement list inside the ReplaceProcess instruction", found))
 	}
 }
